@@ -200,7 +200,7 @@ PROPS["C09"] = dict(
 )
 
 PROPS["C10"] = dict(
-    pkg="c10", race=False, level="exploration", prepare="exec_projects",
+    pkg="c10", race=False, level="exploration", prepare="exec_projects", crash_is_violation=True,
     projects_quick=[("uploads", ["v0"])], projects_thorough=[("uploads", ["v0"])],
     quick=dict(shards=8, timeout=900), thorough=dict(shards=16, timeout=3000),
     claim="structure-aware generation of malformed and well-formed client input against handler.Server over a generated upload schema: "
